@@ -917,3 +917,59 @@ func VH_C15_fitimage_Q() {
 		vAssert("C15.fitimage.cover", isRect && crop && aspect)
 	}
 }
+
+// H3d DrawPath and dashes: the Context decides per path whether the dash pattern matters (solid,
+// nothing, dashed) before it hands the style to the renderer.  Renderers measure the pattern in
+// units of the stroke width (ScaleDash(StrokeWidth, ...), as the rasterizer does), so the decision
+// has to be taken for the scaled pattern: for a line of length L drawn with stroke width w and
+// pattern d, "solid" is right only if every position of (0,L) is drawn by the pattern w*d shifted
+// by w*offset, "no stroke" only if none is, and a pattern that is handed on must be equivalent to d.
+// Line length, width, two pattern entries and the offset symbolic (multiples of 1/4).
+func VH_C15_drawpath_dashes_Q() {
+	vStub("math.Mod", vhModBounded)
+	vStub("math.Hypot", vhHypotQ)
+	w := []float64{0.25, 0.5, 1, 2, 4}[vChoose(0, 4)]
+	a, b := vNondetDyadic(6, 2), vNondetDyadic(6, 2)
+	vAssume(0.25 <= a && a <= 6 && 0.25 <= b && b <= 6)
+	off := vNondetDyadic(7, 2)
+	vAssume(0 <= off && off <= 2*(a+b))
+	L := vNondetDyadic(7, 2)
+	vAssume(0.25 <= L && L <= 12)
+	rec := &vhC15Rec{w: 100, h: 100}
+	c := NewContext(rec)
+	c.SetFillColor(Transparent)
+	c.SetStrokeColor(Black)
+	c.SetStrokeWidth(w)
+	c.SetDashes(off, a, b)
+	p := &Path{}
+	p.d = []float64{MoveToCmd, 0, 0, MoveToCmd, LineToCmd, L, 0, LineToCmd}
+	c.DrawPath(1, 2, p)
+	x := vNondetF64()
+	vAssume(0 < x && x < L)
+	// general position: not within 1e-6 of a boundary of the scaled pattern
+	gp := true
+	for k := -1; k <= 8; k++ {
+		base := (float64(k)*(a+b) - off) * w
+		gp = gp && (x-base >= 1e-6 || base-x >= 1e-6) && (x-(base+a*w) >= 1e-6 || (base+a*w)-x >= 1e-6)
+	}
+	vAssume(gp && L <= 8*(a+b)*w)
+	want := vhOnPattern(off*w, []float64{a * w, b * w}, x)
+	if len(rec.calls) == 0 {
+		vAssert("C15.dashes.nothing_only_if_nothing_drawn", !want)
+		return
+	}
+	st := rec.calls[0].style
+	switch {
+	case !st.HasStroke():
+		vAssert("C15.dashes.nothing_only_if_nothing_drawn", !want)
+	case len(rec.calls[0].dashes) == 0:
+		vAssert("C15.dashes.solid_only_if_all_drawn", want)
+	default:
+		d := rec.calls[0].dashes
+		sd := make([]float64, len(d))
+		for i := range d {
+			sd[i] = d[i] * w
+		}
+		vAssert("C15.dashes.kept_pattern_equivalent", vhOnPattern(st.DashOffset*w, sd, x) == want)
+	}
+}
